@@ -426,7 +426,8 @@ def run(ctx) -> None:
                         cc = c.config()
                         if list(cc) != [c.module] or list(cc[c.module]) != [c.method] or canon(dict(cc[c.module][c.method])) != canon(dict(c.kwargs)):
                             ctx.violation("C07:Call.config-mismatch", {**wb, "call": repr(c)})
-                    nctx_expected = len({(canon_window(c.get("window")), c.get("region")) for c in ctxs
+                    # (contexts are equal when window and region *geometries* are equal, whatever the region's spelling)
+                    nctx_expected = len({(canon_window(c.get("window")), region_wkb(REGIONS[c["region"]]) if c.get("region") else None) for c in ctxs
                                          if any((m, t) in TESTS for ts_ in c["streams"].values() for m, t, _ in ts_)})
                     if len(cfg.contexts) != nctx_expected:
                         ctx.violation("C07:contexts-grouping", {**wb, "expected_contexts": nctx_expected,
